@@ -121,7 +121,7 @@ func c06(c *Ctx) {
 					fromXR = true
 				}
 			}
-			if fromXR && s.Block().Dominates(first.Block()) && cfgx.InstrReaches(s, first, nil) {
+			if fromXR && cfgx.MustPass(s.Block(), first.Block()) && cfgx.InstrReaches(s, first, nil) {
 				good = true
 			}
 		}
@@ -302,7 +302,7 @@ func headDominatesViaNil(fn *ssa.Function, head ssa.CallInstruction, e ssa.CallI
 	for _, a := range head.Common().Args {
 		for _, ci := range flow.Default.CallsIn(a) {
 			if strings.HasSuffix(cfgx.CalleeName(ci), "composite.Unstructured).GetClaimReference") {
-				if ci.Block().Dominates(e.Block()) {
+				if cfgx.MustPass(ci.Block(), e.Block()) {
 					return true
 				}
 			}
